@@ -162,6 +162,10 @@ where
             let text = std::fs::read_to_string(a.str("file", "")).expect("script file");
             seg::run_script::<R>(tr, &text);
         }
+        "replay" => {
+            let text = std::fs::read_to_string(a.str("file", "")).expect("replay file");
+            seg::run_replay::<R>(tr, &text);
+        }
         "layout" => {
             let doms: Vec<(i64, i64)> = a
                 .str("domains", "")
